@@ -1004,3 +1004,15 @@ func init() {
 		return c
 	})
 }
+
+func init() {
+	reg("github.com/cosmos/cosmos-sdk/store/prefix.cloneAppend", func(p *Path, _ *frame, a []Value, _ token.Pos) Value {
+		// fresh slice holding bz followed by tail
+		if s, ok := a[0].(SliceV); ok {
+			c := make([]Value, len(s.A))
+			copy(c, s.A)
+			return p.appendOp(SliceV{c}, a[1])
+		}
+		return p.appendOp(a[0], a[1])
+	})
+}
